@@ -31,7 +31,7 @@ Definition Inv (m : table obj) : Prop := forall j v, t_get m j = Some v -> oref_
 
 Lemma key_eqb_eq : forall a b, key_eqb a b = true <-> a = b.
 Proof.
-  intros [|x|x] [|y|y]; cbn; split; intro H; try discriminate; try reflexivity;
+  intros [|x|x|x] [|y|y|y]; cbn; split; intro H; try discriminate; try reflexivity;
     try (apply Nat.eqb_eq in H; subst; reflexivity); inversion H; subst; apply Nat.eqb_refl.
 Qed.
 
